@@ -238,17 +238,19 @@ def weekPeriodP (ref : DateTime) (swift : Int) (early mid late : Bool) : Option 
   else if late && swift == 0 then some (timex, if be.1.lt ref then ref else be.1, e1)
   else some (timex, be.1, e1)
 
-/-- `_parse_one_word_period`, weekend branch: Saturday .. Monday (exclusive). The TIMEX takes its year from the
-*reference's calendar year* and its week number from the Saturday (faithful to the code). -/
-def weekendPeriod (ref : DateTime) (swift : Int) : Option (Str × DateTime × DateTime) :=
+/-- `_parse_one_word_period`, weekend branch as it was BEFORE `fix: the weekend TIMEX takes its year from the ISO year
+of the Saturday` (10db50e3c): Saturday .. Monday (exclusive); the TIMEX took its year from the *reference's calendar
+year* and its week number from the Saturday. Kept as the labelled pre-fix variant. -/
+def weekendPeriodPreFix (ref : DateTime) (swift : Int) : Option (Str × DateTime × DateTime) :=
   (weekDay ref swift 6).bind fun beginDate =>
   (weekDay ref swift 7).bind fun end0 =>
   (addDelta end0 0 0 1).bind fun endDate =>
   some (pad 4 ref.date.y ++ [45, 87] ++ pad 2 (isoCalendar beginDate.date).2.1 ++ [45, 87, 69], beginDate, endDate)
 
-/-- Repaired variant proposed for `weekend-timex-reference-year`: the ISO year of the Saturday. -/
-def weekendPeriodFixed (ref : DateTime) (swift : Int) : Option (Str × DateTime × DateTime) :=
-  (weekendPeriod ref swift).map fun r =>
+/-- `_parse_one_word_period`, weekend branch of the current code: Saturday .. Monday (exclusive), TIMEX
+`f'{begin_date.isocalendar()[0]:04d}-W{begin_date.isocalendar()[1]:02d}-WE'` (ISO year and week of the Saturday). -/
+def weekendPeriod (ref : DateTime) (swift : Int) : Option (Str × DateTime × DateTime) :=
+  (weekendPeriodPreFix ref swift).map fun r =>
     (pad 4 (isoCalendar r.2.1.date).1 ++ [45, 87] ++ pad 2 (isoCalendar r.2.1.date).2.1 ++ [45, 87, 69], r.2.1, r.2.2)
 
 /-- `_parse_one_word_period`, month branch as it is after the fix (`reference.replace(day=1) +
@@ -283,12 +285,21 @@ def yearToDate (ref : DateTime) : Str × DateTime × DateTime :=
 def safeCreateFromValueH (seed : DateTime) (y : Int) (m d h : Nat) : DateTime :=
   if isValidDate y m d && decide (h < 24) then ⟨⟨y.toNat, m, d⟩, h * 3600⟩ else seed
 
-/-- `is_month_to_date`: `(timex, future start, past start, end)`. Faithful to the code: the past value's start is
-built with the arguments `(year, month, month, 1)` — day = month number, hour = 1. -/
-def monthToDate (ref : DateTime) : Str × DateTime × DateTime × DateTime :=
+/-- `is_month_to_date` as it was BEFORE `fix: 'month to date' starts on the first of the month in its past value too`
+(f19a69b3f): `(timex, future start, past start, end)`; the past value's start was built with the arguments
+`(year, month, month, 1)` — day = month number, hour = 1. Kept as the labelled pre-fix variant. -/
+def monthToDatePreFix (ref : DateTime) : Str × DateTime × DateTime × DateTime :=
   (pad 4 ref.date.y ++ [45] ++ pad 2 ref.date.m,
    safeCreateFromValue minValue ref.date.y ref.date.m 1,
    safeCreateFromValueH minValue ref.date.y ref.date.m ref.date.m 1,
+   ref)
+
+/-- `is_month_to_date` of the current code: `(timex, future start, past start, end)`, both starts are
+`safe_create_from_value(min_value, year, month, 1)`. -/
+def monthToDate (ref : DateTime) : Str × DateTime × DateTime × DateTime :=
+  (pad 4 ref.date.y ++ [45] ++ pad 2 ref.date.m,
+   safeCreateFromValue minValue ref.date.y ref.date.m 1,
+   safeCreateFromValue minValue ref.date.y ref.date.m 1,
    ref)
 
 /-- The units of `rest of the <unit>` (`Constants.UNIT_W / UNIT_MON / UNIT_Y`). -/
@@ -323,16 +334,18 @@ def replaceYear (x : DateTime) (y : Int) : Option DateTime :=
   if isValidDate y x.date.m x.date.d then some ⟨⟨y.toNat, x.date.m, x.date.d⟩, x.secs⟩ else none
 
 /-- `BaseDateParser.parse_number_with_month`, the tail for a month and a (spelled-out) day without a year
-(`ambiguous = True`, "february twenty second", "mayo veintiuno"): faithful to the code — the past candidate is moved
-to `year + 1` (not `year − 1`) when it is not before the reference. → `(timex, future, past)`. -/
-def numberWithMonth (ref : DateTime) (m d : Nat) : Option (Str × DateTime × DateTime) :=
+(`ambiguous = True`, "february twenty second", "mayo veintiuno") as it was BEFORE `fix: a month with a spelled-out day
+takes its past candidate from the previous year` (151a4ac9b): the past candidate was moved to `year + 1` when it is not
+before the reference. → `(timex, future, past)`. Kept as the labelled pre-fix variant. -/
+def numberWithMonthPreFix (ref : DateTime) (m d : Nat) : Option (Str × DateTime × DateTime) :=
   let date := safeCreateFromMinValue ref.date.y m d
   (if date.lt ref then replaceYear date ((date.date.y : Int) + 1) else some date).bind fun future =>
   (if ref.le date then replaceYear date ((date.date.y : Int) + 1) else some date).bind fun past =>
   some (luisDateNoYear m d, future, past)
 
-/-- Repaired variant proposed for `written-day-past-year-plus-one`: `year − 1` for the past candidate. -/
-def numberWithMonthFixed (ref : DateTime) (m d : Nat) : Option (Str × DateTime × DateTime) :=
+/-- `BaseDateParser.parse_number_with_month`, the tail for a month and a (spelled-out) day without a year, current
+code: future candidate `year + 1` when before the reference, past candidate `year − 1` when not before it. -/
+def numberWithMonth (ref : DateTime) (m d : Nat) : Option (Str × DateTime × DateTime) :=
   let date := safeCreateFromMinValue ref.date.y m d
   (if date.lt ref then replaceYear date ((date.date.y : Int) + 1) else some date).bind fun future =>
   (if ref.le date then replaceYear date ((date.date.y : Int) - 1) else some date).bind fun past =>
